@@ -229,6 +229,33 @@ def load_known():
     return known
 
 
+def _explained_by_chain(u, d, allowed):
+    pats = {}
+    for p_ in u.patterns:
+        pats.setdefault(p_["file"], []).append((p_["line"], p_["name"]))
+    for v in pats.values():
+        v.sort()
+    locs = []
+    for n in d["notes"]:
+        m = re.match(r"^(.*?):(\d+): in instantiation of", str(n))
+        if m:
+            locs.append((m.group(1), int(m.group(2))))
+    for fpath, ln in locs:
+        lst = pats.get(fpath)
+        if not lst:
+            continue
+        owner = None
+        for pl, nm in lst:
+            if pl <= ln:
+                owner = nm
+            else:
+                break
+        for a in allowed:
+            if short(fpath).endswith(a["file"]) and owner == a["name"]:
+                return a
+    return None
+
+
 def check_diagnostics(fb, ctx):
     """errors outside member instantiations mean the headers do not parse: broken.
     errors inside an instantiation mark that member uninstantiable."""
@@ -243,6 +270,10 @@ def check_diagnostics(fb, ctx):
                     hit = a
                     break
             inst = [n for n in d["notes"] if "in instantiation of" in n]
+            if hit is None:
+                # the error may surface in a helper (or a system header) that a listed member instantiates: follow the
+                # "in instantiation of ... requested here" chain back to the member it started in
+                hit = _explained_by_chain(u, d, allowed)
             if hit is None:
                 if inst and f.startswith("gmlc/"):
                     # a member that stopped being instantiable: skipped, reported
